@@ -4,4 +4,5 @@ package main
 // filled in as those models land.
 func extra(repo string) {
 	hostFacts(repo)
+	pkgState(repo)
 }
